@@ -1,5 +1,6 @@
 (* C17 -- property theorems only.  Proofs live in C17/Proofs.v. *)
-From Coq Require Import NArith.
+From Coq Require Import NArith Bool.
+Local Open Scope bool_scope.
 From DV Require Import Base.Outcome C17.Gen C17.Model C17.Proofs.
 Local Open Scope N_scope.
 
@@ -52,3 +53,28 @@ Theorem C17_version_next_gt : forall a, u32 a ->
   exists s, version_next a = Ok s /\ serial_partial_cmp a s = Ok (Some Lt).
 Proof. exact version_next_gt. Qed.
 Print Assumptions C17_version_next_gt.
+
+Theorem C17_sig_time_window_is_rfc1982 : forall now i e, u32 now -> u32 i -> u32 e ->
+  sig_time_ok now i e = (wdiff now e <? 2147483648) && (wdiff i now <? 2147483648).
+Proof. exact sig_time_ok_spec. Qed.
+Print Assumptions C17_sig_time_window_is_rfc1982.
+
+Theorem C17_sig_time_shift_invariant : forall now i e k, u32 now -> u32 i -> u32 e ->
+  sig_time_ok ((now + k) mod M32) ((i + k) mod M32) ((e + k) mod M32) = sig_time_ok now i e.
+Proof. exact sig_time_shift_invariant. Qed.
+Print Assumptions C17_sig_time_shift_invariant.
+
+Theorem C17_ixfr_up_to_date_is_rfc1982 : forall q z, u32 q -> u32 z ->
+  ixfr_client_up_to_date q z = (wdiff z q <? 2147483648).
+Proof. exact ixfr_up_to_date_spec. Qed.
+Print Assumptions C17_ixfr_up_to_date_is_rfc1982.
+
+Theorem C17_ixfr_up_to_date_shift_invariant : forall q z k, u32 q -> u32 z ->
+  ixfr_client_up_to_date ((q + k) mod M32) ((z + k) mod M32) = ixfr_client_up_to_date q z.
+Proof. exact ixfr_up_to_date_shift. Qed.
+Print Assumptions C17_ixfr_up_to_date_shift_invariant.
+
+Theorem C17_diff_range_accepts_bumped : forall s n, u32 s -> 1 <= n <= 2147483647 ->
+  diff_range_rejected s ((s + n) mod M32) = false.
+Proof. exact diff_range_accepts_bumped. Qed.
+Print Assumptions C17_diff_range_accepts_bumped.
